@@ -19,6 +19,7 @@
 #include <tao/pegtl/contrib/integer.hpp>
 #include <tao/pegtl/contrib/limit_bytes.hpp>
 #include <tao/pegtl/contrib/limit_depth.hpp>
+#include <tao/pegtl/contrib/parse_tree.hpp>
 
 namespace vh
 {
@@ -570,6 +571,110 @@ namespace vh
          char b[ 96 ];
          std::snprintf( b, sizeof b, "O %d %zu %zu\n", g_oob != 0 ? 1 : 0, std::size_t( in.end() - in.begin() ), in.current_depth() );
          g_out += b;
+      }
+      g_out += "END\n";
+      std::fwrite( g_out.data(), 1, g_out.size(), stdout );
+      delete[] buf;
+   }
+
+   // C12: the same case through parse_tree::parse, with the logging control underneath the tree-building control and one
+   // user state (depth 0) that must reach the actions unchanged (rotate_states_right / remove_first_state).
+   struct vroot : vstate_base
+   {};
+
+   inline void dump_tree( const pegtl::parse_tree::node& n, const int depth )
+   {
+      for( const auto& c : n.children ) {
+         int id = -2;
+         const auto it = names().find( std::string( c->type ) );
+         if( it != names().end() ) {
+            id = it->second;
+         }
+         char b[ 64 ];
+         std::snprintf( b, sizeof b, "T %d %d", depth, id );
+         g_out += b;
+         emit_pos( c->begin() );
+         if( c->has_content() ) {
+            emit_pos( c->end() );
+         }
+         else {
+            g_out += " -";
+         }
+         g_out += '\n';
+         dump_tree( *c, depth + 1 );
+      }
+   }
+
+   inline std::size_t count_tree( const pegtl::parse_tree::node& n )
+   {
+      std::size_t k = 0;
+      for( const auto& c : n.children ) {
+         k += 1 + count_tree( *c );
+      }
+      return k;
+   }
+
+   template< typename Tag,
+             typename Root,
+             template< typename... >
+             class Selector,
+             template< typename... >
+             class Action,
+             template< typename... >
+             class Control,
+             pegtl::tracking_mode T,
+             typename Eol >
+   void run_case_tree( const char* case_id, const std::string& bytes, std::size_t ib, std::size_t il, std::size_t ic )
+   {
+      const std::size_t n = bytes.size();
+      char* buf = new char[ n ];
+      if( n != 0 ) {
+         std::memcpy( buf, bytes.data(), n );
+      }
+      names_ptr() = &names_for< Tag >();
+      g_out.clear();
+      g_steps = 0;
+      g_oob = 0;
+      g_out += "CASE ";
+      g_out += case_id;
+      g_out += '\n';
+      std::fwrite( g_out.data(), 1, g_out.size(), stdout );
+      std::fflush( stdout );
+      g_out.clear();
+      {
+         pegtl::input_with_depth< pegtl::memory_input< T, Eol, std::string > > in( buf, buf + n, "src", ib, il, ic );
+         vroot root;
+         std::unique_ptr< pegtl::parse_tree::node > tree;
+         bool threw = false;
+         try {
+            tree = pegtl::parse_tree::parse< Root, pegtl::parse_tree::node, Selector, Action, Control >( in, root );
+            g_out += tree ? "R 1" : "R 0";
+            emit_pos( in.position() );
+            g_out += '\n';
+         }
+         catch( ... ) {
+            threw = true;
+            g_out += "R 2";
+            emit_pos( in.position() );
+            g_out += ' ';
+            describe_exception( std::current_exception() );
+            g_out += '\n';
+         }
+         char b[ 96 ];
+         std::snprintf( b, sizeof b, "O %d %zu %zu\n", g_oob != 0 ? 1 : 0, std::size_t( in.end() - in.begin() ), in.current_depth() );
+         g_out += b;
+         if( tree ) {
+            if( !tree->is_root() || tree->has_content() ) {
+               g_out += "TREE bad-root\n";
+            }
+            std::snprintf( b, sizeof b, "TREE %zu\n", count_tree( *tree ) );
+            g_out += b;
+            dump_tree( *tree, 0 );
+         }
+         else {
+            g_out += "TREE none\n";
+         }
+         (void)threw;
       }
       g_out += "END\n";
       std::fwrite( g_out.data(), 1, g_out.size(), stdout );
